@@ -793,8 +793,13 @@ func (r *resolver) findGrouping(y *Uses) (*Grouping, error) {
 
 func (r *resolver) applyRefinements(u *Uses, parent Definition) error {
 	for _, refine := range u.refines {
-		if on, err := checkFeature(refine); !on || err != nil {
+		on, err := checkFeature(refine)
+		if err != nil {
 			return err
+		}
+		if !on {
+			// only this refine is off, the ones after it still apply
+			continue
 		}
 		target := Find(parent.(HasDataDefinitions), refine.Ident())
 		if target == nil {
